@@ -15,7 +15,7 @@ import subprocess
 
 from . import common
 
-MODULES = ["CoapVerif.Props.C18", "CoapVerif.Props.C18Runner", "CoapVerif.Findings.C18"]
+MODULES = ["CoapVerif.Props.C18", "CoapVerif.Props.C18Far", "CoapVerif.Props.C18Runner", "CoapVerif.Findings.C18"]
 GENERATED = ["Monitor.lean"]
 
 
@@ -109,6 +109,47 @@ def pushing_case(rng, level):
     return lines, {"local-send", "pushing-to-silent-peer"}, level
 
 
+# Retry limits at the edges of 8-, 16-, 20- and 24-bit counters ("all retry limits"): a count of unanswered pings kept in fewer
+# bits than maxRetries (uint32) has wraps exactly there (seeded C18-W: 16 bits).  2^32 - 1 is out of reach of any run (2^32
+# ticks); see docs/notes/C18.md, O5.
+FAR_LIMITS_QUICK = [255, 256, 65534, 65535, 65536, 65537]
+FAR_LIMITS_THOROUGH = FAR_LIMITS_QUICK + [2 ** 20 - 1, 2 ** 24 - 1, 2 ** 24, 2 ** 24 + 1]
+
+
+def far_case(rng, level, n, shape):
+    """a dead peer and a large retry limit: `ticks <k> <t0> <dt>` is k housekeeping ticks in a row.  The connection must be
+    pinged at every idle tick up to the limit and closed at exactly the (n+1)-th; a message (or the answer to the current
+    ping) after n unanswered pings starts the count again - from 0, not from where a narrower counter would be."""
+    period = rng.choice([100, 1000, 1_000_000])
+    dt = rng.choice([1, 1, 3, period + 1]) if n < 2 ** 20 else 1
+    lines = ["cfg %s %d %d 0" % (level, period, n)]
+    kinds = {"far-limit-%d" % n, "far-" + shape}
+    extra = rng.choice([1, 2, 5])
+    if shape == "straight":
+        # starts one or two ticks before the period has run out: those do nothing
+        t0 = period + 1 - rng.choice([0, 1, 2]) * dt
+        lines.append("ticks %d %d %d" % (n + 1 + extra + 2, t0, dt))
+    elif shape == "one-short":
+        # n idle ticks (n unanswered pings), still open; a single further tick closes
+        t0 = period + 1
+        lines.append("ticks %d %d %d" % (n, t0, dt))
+        t = t0 + n * dt
+        lines.append("tick %d" % t)
+        lines.append("tick %d" % (t + 1))
+    else:
+        # n unanswered pings, then a sign of life: the count starts again and n more pings go out before the close
+        t0 = period + 1
+        lines.append("ticks %d %d %d" % (n, t0, dt))
+        t = t0 + n * dt
+        if shape == "reset-by-pong" and n > 0:
+            lines.append("pong %d %d" % (n, t))
+        else:
+            lines.append("recv %d" % t)
+        lines.append("tick %d" % (t + period))        # exactly a period later: not yet idle
+        lines.append("ticks %d %d %d" % (n + 1 + extra, t + period + 1, dt))
+    return lines, kinds, level
+
+
 def strip_level(l):
     f = l.split()
     if f[0] == "cfg":
@@ -118,6 +159,8 @@ def strip_level(l):
 
 def no_cancel(line):
     """what is observable on a connection: no cancellation marks, no failed attempts, pings unnumbered"""
+    if line.startswith("rle c"):       # run-length summary of a `ticks` line: the count of cancellation marks is not observable
+        return "rle c0 " + line.split(" ", 2)[2] if line.count(" ") >= 2 else "rle c0"
     parts = [("ping" if p.startswith("ping ") else p) for p in line.split(" ; ") if not p.startswith("cancelping") and not p.startswith("pingfail")]
     return " ; ".join(parts) if parts else "none"
 
@@ -146,6 +189,26 @@ def explore(ctx, art):
         for l in cl:
             lines.append(l)
             owner.append(ci)
+    # far along: retry limits at counter-width boundaries with silent stretches that long (bulk `ticks` lines)
+    far = []
+    shapes = ["straight", "one-short", "reset-by-recv", "reset-by-pong"]
+    for n in (FAR_LIMITS_THOROUGH if thorough else FAR_LIMITS_QUICK):
+        big = n >= 2 ** 20
+        for k, shape in enumerate(shapes if thorough and not big else [shapes[0], rng.choice(shapes[1:])]):
+            far.append(("unit", n, shape))
+        if 2 ** 16 - 2 <= n < 2 ** 20:
+            lv = ["udp", "tcp", "udpnc", "tcpnc"]
+            for level in (lv if thorough else [lv[(n + ctx.seed) % 4]]):
+                far.append((level, n, rng.choice(shapes)))
+    if thorough:
+        far.append(("udp", 2 ** 20 - 1, "straight"))
+        far.append(("tcp", 2 ** 20 - 1, "reset-by-pong"))
+    for level, n, shape in far:
+        cl, kinds, level = far_case(rng, level, n, shape)
+        cases.append((cl, kinds, level))
+        for l in cl:
+            lines.append(l)
+            owner.append(len(cases) - 1)
     lines.append("end")
     owner.append(-1)
     # unit-level cases run in their own harness package (it refers to KeepAliveMonitor, which a change of the
@@ -249,7 +312,9 @@ def explore(ctx, art):
     ctx.cov["traces_validated_against_impl"] = len(cases)
     ctx.cov["rule"] = ("histories of recv / pong(generation) / tick(t) with gaps of 1, period/2, period-1, period, period+1, period+2, 2*period+1 ns "
                        "and double ticks; period in {100 ns, 1 us, 1 ms, 5.33 s}; plain monitor and keep-alive with 0..3 retries; pongs for the current, "
-                       "a superseded or a never-sent ping; run on the bare Monitor/KeepAlive objects and on udp/tcp connections. "
+                       "a superseded or a never-sent ping; run on the bare Monitor/KeepAlive objects and on udp/tcp connections; "
+                       "far along: retry limits 255, 256, 65534..65537 (thorough: 2^20-1, 2^24-1..2^24+1) with silent stretches of that many "
+                       "ticks (bulk `ticks` lines: straight, one short of the close, count restarted by a message / the current pong). "
                        "non-trivial = at least two kinds of event/gap; distinct by the exact line list.")
     for cl, kinds, level in cases[:2]:
         ctx.sample({"history": cl, "kinds": sorted(kinds)})
